@@ -37,6 +37,7 @@ var (
 	probeOut = flag.String("probe", "", "probe the corpus with the library under test, write the sample table here and exit")
 	catFile  = flag.String("cat", "", "sample table written by -probe (the worker then executes no library code before its first run)")
 	coldOrd  = flag.Bool("coldorder", false, "cold-order oracle: only the reverse-order sequential execution of each selected run, in this fresh process")
+	coldFwd  = flag.Bool("coldfwd", false, "with -coldorder: execute in the original task order (control run of the cold-order oracle)")
 	freeMode = flag.Bool("free", false, "free-running mode: the library starts goroutines or blocks on channels")
 	planOnly = flag.Bool("planonly", false, "print the plans of the selected indices without executing them")
 	cpuprof  = flag.String("cpuprofile", "", "write a CPU profile (development)")
@@ -205,7 +206,7 @@ func main() {
 			if p.Mode == "recycle" {
 				continue
 			}
-			emit(harness.ColdOrderRun(p))
+			emit(harness.ColdOrderRun(p, !*coldFwd))
 			runs++
 			continue
 		}
